@@ -18,6 +18,27 @@ from vlib import Infra, log, read_ndjson
 import fam_xpath
 
 
+def prove(ctx, module):
+    """tlapm on spec/<module>.tla in a scratch copy; all obligations must be proved (a spec-level matter, not a code verdict)."""
+    import shutil, time
+    from vlib import SPEC
+    d = ctx.path("tlapm-" + module, "x")
+    d = os.path.dirname(d)
+    for f in (module + ".tla",):
+        shutil.copy(os.path.join(SPEC, f), d)
+    t = time.time()
+    try:
+        r = subprocess.run(["tlapm", "--threads", "12", "--cleanfp", module + ".tla"], cwd=d, capture_output=True, text=True, timeout=900)
+    except (subprocess.TimeoutExpired, FileNotFoundError) as e:
+        raise Infra(f"tlapm on {module}: {e}")
+    out = r.stdout + r.stderr
+    m = re.search(r"All (\d+) obligations? proved", out)
+    if r.returncode != 0 or not m:
+        raise Infra(f"tlapm did not prove {module} (spec-level problem, not a code verdict):\n" + out[-2000:])
+    log(f"tlapm {module}: {m.group(1)} obligations proved {time.time()-t:.1f}s")
+    return dict(module=module, obligations=int(m.group(1)), wall_s=round(time.time() - t, 1))
+
+
 def run(ctx):
     ctx.build(["xp"], race=True)
     quick = ctx.quick()
@@ -25,6 +46,9 @@ def run(ctx):
     ctx.tlc("XPathConc", "XPathConc_MC.cfg", workers=10, timeout=1800, heap="8g", consts={"Comps": "{1, 2}", "Runs": "{3}"})
     ctx.tlc("XPathConc", "XPathConc_MC.cfg", workers=10, timeout=1800, heap="8g",
             consts={"Comps": "{1}", "Runs": "{2, 3}"} if quick else {"Comps": "{1, 2}", "Runs": "{3, 4}"})
+    # the lock protocol for any number of compilers and lookups: LockProto.tla, inductive invariant proved by TLAPS;
+    # XPathConc refines it (PROPERTY RefinesLockProto in XPathConc_MC.cfg, checked by the two TLC runs above)
+    proof = prove(ctx, "LockProto")
     # (ii) schedules from TLC, replayed on real goroutines
     nsched = 300 if quick else 4000
     files = []
@@ -111,7 +135,7 @@ def run(ctx):
     cov = dict(evaluations=cstats["steps"], distinct_nontrivial=cstats["schedules"],
                rule="schedules = complete behaviours of XPathConc.tla sampled by TLC -simulate (seeded), each replayed step by step on gated goroutines; "
                     "distinct = schedules (TLC's sampling does not repeat a behaviour with noticeable probability; not deduplicated)",
-               samples=samples, schedule_replay=cstats, history_vectors=nhist, function_table=ftab, stress=sstats, trace_events=events,
+               samples=samples, schedule_replay=cstats, history_vectors=nhist, function_table=ftab, lock_protocol_proof=proof, stress=sstats, trace_events=events,
                race_reports=races + races2, exhaustive=False,
                explanation="exhaustive interleavings of two small configurations on the spec (states/transitions), sampled interleavings replayed on real goroutines under -race")
     return ctx.finish(cov, [
@@ -125,7 +149,7 @@ PROPS = {"C06": run}
 MANIFEST = {
  "C06": dict(text="XPathConc.tla models compilations (function lookup under the global mutex with the lazy one-time plugin load, split at the three trace "
              "points) running concurrently with runs of shared machines on private contexts. TLC checks mutual exclusion, load-once-before-read, deadlock "
-             "freedom and interleaving-independent results on all interleavings of small configurations, and samples complete interleavings that the harness "
+             "freedom, interleaving-independent results and refinement of LockProto.tla (the lock protocol alone, whose mutual exclusion / load-once / read-after-load are proved for any number of compilers by TLAPS from an inductive invariant) on all interleavings of small configurations, and samples complete interleavings that the harness "
              "executes step by step on real goroutines gated at the hooks, built with -race: per-instruction runner states are validated by the machine "
              "spec, results compared with isolated runs before and after, and a compiler scheduled against a held mutex must stay out. A 16-goroutine "
              "free-running stress run is judged by the same oracle. Histories of function registrations between compilations and runs (XPathFuncs.tla: machines keep the symbols they were compiled with) are sampled by TLC and replayed.",
